@@ -20,7 +20,7 @@ COMPONENTS = {
 }
 ASSUMPTIONS = ['needles of >= 10 bytes; shorter file names are covered by the fixed path component every recorded path contains',
                'algorithm settings in config are public by design']
-PROBES = ['delete', 'clean', 'nonces', 'needles', 'exists_lied', 'foreign_unencrypted_repository_in_cache']
+PROBES = ['delete', 'clean', 'nonces', 'needles', 'exists_lied', 'foreign_unencrypted_repository_in_cache', 'addkey_output_file_existing']
 TIERS = {'quick': {'budget_s': 70, 'batch': 10}, 'thorough': {'budget_s': 900, 'batch': 20}}
 ORACLES = ('store', 'secrecy')
 
@@ -44,6 +44,7 @@ def gen_case(seed, tier):
         for u in case['users']:
             u['N'] = rng.choice([1, 1, 2])
     case['foreign_cache'] = substream(seed, 'c05-cache').random() < 0.3
+    case['key_output'] = substream(seed, 'c05-keyout').random() < 0.3
     return case
 
 
